@@ -223,7 +223,7 @@ Print Assumptions C18_source_iterators_are_the_modelled_ones.
    inner iterator's items and stop their own loop; that the inner one stops is its own theorem.) *)
 From Bio.gen Require ImpGen.
 From Bio.Model Require GoSem.
-From Bio.Proofs Require ImpProofs ImpProofsJ ImpProofsK ImpProofsL ImpProofsQ ImpProofsR ImpProofsU.
+From Bio.Proofs Require ImpProofs ImpProofsI ImpProofsJ ImpProofsK ImpProofsL ImpProofsQ ImpProofsR ImpProofsU.
 
 Theorem C18_canonical_stop_is_source : forall p s k, ImpProofs.all_bytes s ->
   ImpGen.imp_sequtil_CanonicalSubsequences_stop p s k
@@ -279,6 +279,15 @@ Theorem C18_newick_stop_is_source : forall p o tm fuel h s, (length s + 2 < fuel
   end.
 Proof. exact ImpProofsU.imp_newick_Reader_stop_ok. Qed.
 Print Assumptions C18_newick_stop_is_source.
+
+(* PreOrder / PostOrder (Node.traverse with its explicit stack of steps): whenever the model's
+   traversal returns, the translated one, stopped after p nodes, has yielded exactly the first p. *)
+Theorem C18_traverse_stop_is_source : forall p fuel pre t l, (2 * Newick.size t + 2 < fuel)%nat ->
+  Newick.traverse pre t = Ok l ->
+  ImpGen.imp_newick_Node_traverse_stop p fuel (ImpProofsI.node_of t) pre
+  = GoSem.Ret (ImpProofsU.take_stop p (map ImpProofsI.nd l)).
+Proof. exact ImpProofsU.imp_traverse_stop_ok. Qed.
+Print Assumptions C18_traverse_stop_is_source.
 
 Example C18_source_stop_example :
   ImpGen.imp_sequtil_CanonicalSubsequences_stop 2 (bs "ACGTT") 2 = GoSem.Ret [bs "AC"; bs "CG"]
